@@ -1,10 +1,20 @@
 import HecsModel.Model.Builder
 import HecsModel.Generated.Facts
+import HecsModel.Lemmas.Layout
+import HecsModel.Lemmas.Arena
+import HecsModel.Lemmas.CmdBuf
 /-
-  C04 — Type-erased column storage is memory-safe for every component layout. (interim)
+  C04 — Type-erased column storage is memory-safe for every component layout.
+
+  Definitions (in `Lemmas/Arena.lean`):
+    `SlotDisjoint lay s u := s.off + (lay s.ty).size ≤ u.off ∨ u.off + (lay u.ty).size ≤ s.off`
+    `SlotOk lay a s := s.off % (lay s.ty).align = 0 ∧ s.off + (lay s.ty).size ≤ a.cursor ∧
+                       (lay s.ty).align ≤ a.layAlign ∧ s.off + (lay s.ty).size ≤ a.laySize`
+    `ArenaInv lay a := (∀ s ∈ a.slots, SlotOk lay a s) ∧ a.slots.Pairwise (SlotDisjoint lay)`
+  (`SlotDisjoint` is symmetric, so the invariant does not depend on the order of the slot list.)
 -/
 namespace Hecs.Props.C04
-open Hecs
+open Hecs Hecs.ArenaLemmas Hecs.CmdBufLemmas
 
 /-- rounding up to a multiple: the result is a multiple of `a`, not below `x`, and less than `x + a` -/
 theorem alignUp_spec (x a : Nat) (ha : 0 < a) :
@@ -18,5 +28,144 @@ theorem alignUp_spec (x a : Nat) (ha : 0 < a) :
   · have := Nat.div_add_mod (x + a - 1) a
     rw [Nat.mul_comm] at this
     omega
+
+/-! ### 6. the arena invariant -/
+
+/-- `usize::next_power_of_two` does not shrink its argument -/
+theorem le_nextPow2 (n : Nat) (h : n ≤ 2 ^ 63) : n ≤ nextPow2 n := LayoutLemmas.le_nextPow2 n h
+
+/-- the model of `next_power_of_two` is good up to `2^64` -/
+theorem le_nextPow2' (n : Nat) (h : n ≤ 2 ^ 64) : n ≤ nextPow2 n := LayoutLemmas.le_nextPow2' n h
+
+theorem nextPow2_isPow2 (n : Nat) : ∃ k, nextPow2 n = 2 ^ k := LayoutLemmas.nextPow2_isPow2 n
+
+theorem arenaInv_empty (lay : Nat → TyLayout) : ArenaInv lay {} := arenaInv_default lay
+
+/-- `Common::add` keeps the invariant: replace branch and append branch -/
+theorem arenaInv_add (lay : Nat → TyLayout) (a : Arena) (t v : Nat) (h : ArenaInv lay a)
+    (hal : 0 < (lay t).align)
+    (hstop : alignUp a.cursor (lay t).align + (lay t).size ≤ 2 ^ 63) :
+    ArenaInv lay (a.add lay t v).1 :=
+  ArenaLemmas.arenaInv_add lay a t v h hal hstop
+
+/-- a whole script of `add`s, as long as the arena stays (comfortably) below `2^63` bytes -/
+theorem arenaInv_addAll (lay : Nat → TyLayout) (a : Arena) (cs d : List Comp) (h : ArenaInv lay a)
+    (hal : ∀ c, c ∈ cs → 0 < (lay c.1).align)
+    (hb : ∀ c, c ∈ cs → (lay c.1).size + (lay c.1).align + (a.addAll lay cs d).1.cursor ≤ 2 ^ 63) :
+    ArenaInv lay (a.addAll lay cs d).1 :=
+  ArenaLemmas.arenaInv_addAll lay a cs d h hal hb
+
+theorem arenaInv_clear (lay : Nat → TyLayout) (a : Arena) : ArenaInv lay (a.clear).1 :=
+  ArenaLemmas.arenaInv_clear lay a
+
+/-- `CommandBuffer::add_inner` (always a fresh slot) -/
+theorem arenaInv_addInner (lay : Nat → TyLayout) (a : Arena) (t v : Nat) (h : ArenaInv lay a)
+    (hal : 0 < (lay t).align)
+    (hstop : alignUp a.cursor (lay t).align + (lay t).size ≤ 2 ^ 63) :
+    ArenaInv lay (CmdBuf.addInner lay a t v) :=
+  ArenaLemmas.arenaInv_addInner lay a t v h hal (LayoutLemmas.le_nextPow2 _ hstop)
+
+/-- `CommandBuffer::insert`/`spawn`: pushing the bundle and sorting the new tail of the slot list -/
+theorem arenaInv_record (lay : Nat → TyLayout) (c : CmdBuf) (e : Option Entity) (b : List Comp)
+    (h : ArenaInv lay c.arena) (hal : ∀ x, x ∈ b → 0 < (lay x.1).align)
+    (hb : (c.record lay e b).arena.cursor ≤ 2 ^ 63) :
+    ArenaInv lay (c.record lay e b).arena :=
+  CmdBufLemmas.arenaInv_record lay c e b h hal hb
+
+theorem arenaInv_recRemove (lay : Nat → TyLayout) (c : CmdBuf) (e : Entity) (ts : List Nat)
+    (h : ArenaInv lay c.arena) : ArenaInv lay (c.recRemove e ts).arena := h
+
+theorem arenaInv_recDespawn (lay : Nat → TyLayout) (c : CmdBuf) (e : Entity)
+    (h : ArenaInv lay c.arena) : ArenaInv lay (c.recDespawn e).arena := h
+
+theorem arenaInv_runOn (lay : Nat → TyLayout) (c : CmdBuf) (w : World) :
+    ArenaInv lay (c.runOn w).1.arena :=
+  CmdBufLemmas.arenaInv_runOn lay c w
+
+theorem arenaInv_cmdClear (lay : Nat → TyLayout) (c : CmdBuf) : ArenaInv lay (c.clear).1.arena :=
+  CmdBufLemmas.arenaInv_cmdClear lay c
+
+/-- the invariant does not depend on the order of the slot list (sorting is harmless) -/
+theorem arenaInv_perm (lay : Nat → TyLayout) (a : Arena) (l : List Slot) (hp : l.Perm a.slots)
+    (h : ArenaInv lay a) : ArenaInv lay { a with slots := l } :=
+  ArenaLemmas.arenaInv_perm lay a l hp h
+
+theorem arenaInv_sortSlots (lay : Nat → TyLayout) (a : Arena) (h : ArenaInv lay a) :
+    ArenaInv lay { a with slots := CmdBuf.sortSlots a.slots } :=
+  ArenaLemmas.arenaInv_perm lay a _ (sortSlots_perm a.slots) h
+
+/-- cloning a builder keeps the layout (same types and offsets, same cursor and allocation) -/
+theorem arenaInv_cloneB (lay : Nat → TyLayout) (cc : CloneCounts) (b : Builder)
+    (h : ArenaInv lay b.arena) : ArenaInv lay (b.cloneB cc).2.arena := by
+  rw [cloneB_arena]
+  exact arenaInv_reval lay b.arena _ (by rw [cloneVals_length]; simp [Arena.vals]) h
+
+/-- two different slots never overlap -/
+theorem slots_disjoint (lay : Nat → TyLayout) (a : Arena) (h : ArenaInv lay a) (i j : Nat)
+    (hi : i < a.slots.length) (hj : j < a.slots.length) (hij : i ≠ j) :
+    SlotDisjoint lay a.slots[i] a.slots[j] :=
+  arenaInv_disjoint lay a h i j hi hj hij
+
+/-- every slot lies inside the allocation -/
+theorem slot_in_bounds (lay : Nat → TyLayout) (a : Arena) (h : ArenaInv lay a) (s : Slot)
+    (hs : s ∈ a.slots) : s.off + (lay s.ty).size ≤ a.laySize ∧ s.off + (lay s.ty).size ≤ a.cursor :=
+  ⟨(h.1 s hs).2.2.2, (h.1 s hs).2.1⟩
+
+/-- every slot address is aligned for its type -/
+theorem slot_address_aligned (lay : Nat → TyLayout) (a : Arena) (base : Nat) (s : Slot)
+    (h : ArenaInv lay a) (hb : base % a.layAlign = 0) (hd : (lay s.ty).align ∣ a.layAlign)
+    (hs : s ∈ a.slots) : (base + s.off) % (lay s.ty).align = 0 :=
+  ArenaLemmas.slot_address_aligned lay a base s h hb hd hs
+
+/-! ### 7. the Rust alignment expression -/
+
+/-- `(x + alignment - 1) & (!alignment + 1)` is `alignUp` for a power-of-two alignment when the
+addition does not wrap -/
+theorem alignExpr_eq_alignUp (x a : BitVec 64) (k : Nat) (hk : k < 64) (ha : a.toNat = 2 ^ k)
+    (hx : x.toNat + a.toNat ≤ 2 ^ 64) :
+    (Hecs.Generated.alignExpr x a).toNat = alignUp x.toNat a.toNat :=
+  LayoutLemmas.alignExpr_eq_alignUp x a k hk ha hx
+
+theorem alignExpr_spec (x a : BitVec 64) (k : Nat) (hk : k < 64) (ha : a.toNat = 2 ^ k)
+    (hx : x.toNat + a.toNat ≤ 2 ^ 64) :
+    (Hecs.Generated.alignExpr x a).toNat % a.toNat = 0 ∧
+      x.toNat ≤ (Hecs.Generated.alignExpr x a).toNat ∧
+      (Hecs.Generated.alignExpr x a).toNat < x.toNat + a.toNat :=
+  LayoutLemmas.alignExpr_spec x a k hk ha hx
+
+/-! ### 8. column arithmetic -/
+
+theorem col_in_bounds (size i cap : Nat) (h : i < cap) : size * i + size ≤ size * cap :=
+  LayoutLemmas.col_in_bounds size i cap h
+
+theorem col_aligned (base size align i : Nat) (hb : base % align = 0) (hs : size % align = 0) :
+    (base + size * i) % align = 0 :=
+  LayoutLemmas.col_aligned base size align i hb hs
+
+theorem grow_copy_in_bounds (size count oldCap newCap : Nat) (h1 : count ≤ oldCap)
+    (h2 : oldCap ≤ newCap) : size * count ≤ size * newCap :=
+  LayoutLemmas.grow_copy_in_bounds size count oldCap newCap h1 h2
+
+/-- `Archetype::reserve` (`LayoutLemmas.reserveCap` transcribes `reserve`/`grow`/`grow_exact`) -/
+theorem reserve_enough (cap len additional : Nat) (h : len ≤ cap) :
+    len + additional ≤ LayoutLemmas.reserveCap cap len additional :=
+  LayoutLemmas.reserve_enough cap len additional h
+
+/-- `Archetype::allocate` grows by `max cap 64` when full -/
+theorem allocate_grows (cap len : Nat) (h : len ≤ cap) : len < LayoutLemmas.allocateCap cap len :=
+  LayoutLemmas.allocate_grows cap len h
+
+/-- the dangling pointer `max_align` of an empty archetype is aligned for every column -/
+theorem zst_ptr_aligned (m : Nat) (rest : List Nat) (hs : (m :: rest).Pairwise (· ≥ ·))
+    (hp : ∀ a ∈ m :: rest, ∃ k, a = 2 ^ k) : ∀ a ∈ m :: rest, m % a = 0 :=
+  LayoutLemmas.zst_ptr_aligned m rest hs hp
+
+theorem batched_bounds (offset batch len : Nat) (h : offset < len) :
+    offset + min batch (len - offset) ≤ len :=
+  LayoutLemmas.batched_bounds offset batch len h
+
+theorem chunk_iter_in_bounds (size position len : Nat) (h : position < len) :
+    size * position + size ≤ size * len :=
+  LayoutLemmas.chunk_iter_in_bounds size position len h
 
 end Hecs.Props.C04
